@@ -236,6 +236,8 @@ struct Rewriter<'a> {
     skip_ranges: Vec<(usize, usize)>,
     /// lexical lockset: scopes of (guard variable, lock key)
     guard_scopes: Vec<Vec<(String, String)>>,
+    /// names of the method calls enclosing the expression being visited
+    call_stack: Vec<String>,
 }
 
 /// if `e` is `<recv>.lock()` / `.try_lock()` possibly followed by `.expect(..)` / `.unwrap()`, the lock's receiver key
@@ -346,7 +348,7 @@ impl<'a> Rewriter<'a> {
         }
         if name == "panic" || name == "unreachable" || name == "unimplemented" || name == "todo" {
             let body = mac.tokens.to_string();
-            let mut shim = "panic_shim()".to_string();
+            let mut shim = self.expand("panic_shim(Ghost($LOCKS))");
             for (prefix, s) in &self.spec.rules.panic {
                 if body.trim_start().trim_start_matches('"').starts_with(prefix.as_str()) {
                     shim = s.clone();
@@ -665,6 +667,13 @@ impl<'a, 'ast> Visit<'ast> for Rewriter<'a> {
                         }
                         return;
                     }
+                    None if self.spec.rules.default_closure.is_some()
+                        && matches!(self.call_stack.last().map(|s| s.as_str()), Some("map") | Some("and_then") | Some("unwrap_or_else") | Some("map_err") | Some("filter") | Some("ok_or_else") | Some("map_or")) => {
+                        // a combinator closure is ordinary code of the enclosing function: it stays (Verus checks it as exec code)
+                        self.notes.push(format!("closure #{} at {}:{} kept (combinator argument)", n, self.src.rel, self.src.line_of(cs)));
+                        visit::visit_expr(self, e);
+                        return;
+                    }
                     None if self.spec.rules.default_closure.is_some() => {
                         let rep = self.spec.rules.default_closure.clone().unwrap();
                         self.edit(cs, ce, rep, 0);
@@ -757,6 +766,15 @@ impl<'a, 'ast> Visit<'ast> for Rewriter<'a> {
                 }
             }
             _ => {}
+        }
+        if let Expr::MethodCall(m) = e {
+            self.visit_expr(&m.receiver);
+            self.call_stack.push(m.method.to_string());
+            for a in &m.args {
+                self.visit_expr(a);
+            }
+            self.call_stack.pop();
+            return;
         }
         visit::visit_expr(self, e);
     }
@@ -1226,6 +1244,7 @@ fn main() {
                 notes: vec![],
                 skip_ranges: vec![],
                 guard_scopes: vec![],
+                call_stack: vec![],
             };
             let (rs, re);
             if let Some(b) = region_block {
@@ -1303,7 +1322,7 @@ fn main() {
                 let msg = e.downcast_ref::<String>().cloned().unwrap_or_else(|| "internal error".to_string());
                 out.text.truncate(saved_text_len);
                 out.origins.truncate(saved_orig_len);
-                out.push(&format!("{}{{ proof {{ assume(false); }} panic_shim() }} // STUBBED {}\n", indent0, spec.func), &format!("tmpl:{}", spec.tmpl_line));
+                out.push(&format!("{}{{ proof {{ assume(false); }} panic_shim(Ghost(0u64)) }} // STUBBED {}\n", indent0, spec.func), &format!("tmpl:{}", spec.tmpl_line));
                 stubbed.push(format!("{}::{}: {}", spec.file, spec.func, msg));
                 // the whole function counts as a region so that S-cover can still be evaluated
                 let src = files.get(&spec.file).unwrap();
